@@ -39,7 +39,8 @@ CLAIMED = {
          "Good (every stored value the next run treats as up to date equals its from-scratch value) is preserved by every completed write, source update "
          "and deletion in any order (C03_good_preserved); a complete run then leaves every stored value and every node's visible value equal to from-scratch "
          "(C03_history, C03_write_value, C03_good_init). C03_end_to_end: for every schedule of the engine model on the physical plan of the stale set "
-         "the stale check computes, a run that returns normally leaves the from-scratch value in every non-source store and in the returned node.", "4/C03"),
+         "the stale check computes, a run that returns normally leaves the from-scratch value in every non-source store and in the returned node; "
+         "C03_end_to_end_norm: the same for stores that normalise what they are given (from-scratch values taken through the stores).", "4/C03"),
  "C04": ("proof", "Lean 4 proof (place-counting invariant) + trace refinement check",
          "No node is begun or enqueued twice in any reachable state, every enqueued node is in exactly one place, only graph nodes run "
          "(C04_once, C04_enqueued_once, C04_place, C04_only_graph_nodes).", "4/C04"),
@@ -99,7 +100,9 @@ CLAIMED = {
          "registered output redirected to its read node (C09_edges, C09_args_from_read, C09_output); pruning preserves these paths; hence in every "
          "reachable engine state a begun consumer implies completed read/write/orig (C09_order, C09_path_order); dependent sources are read after their "
          "predecessors (C09_depsource*); stored descendants are out of date too (C09_downstream_stale); the physical plan is acyclic; what a begun node "
-         "reads (store, argument slots, the value to write) is already final (C09_read_stable, C09_args_stable, C09_write_input_stable).", "4/C09"),
+         "reads (store, argument slots, the value to write) is already final (C09_read_stable, C09_args_stable, C09_write_input_stable); for stores with "
+         "an ARBITRARY normalisation (read() = nm(written)) a consumer receives the read-back value of a stored dependency, which is what the store "
+         "holds, never the value the call returned (C09_consumer_gets_readback, C09_norm_simulation).", "4/C09"),
  "C13": ("proof", "Lean 4 proof (frame theorem on an explicit heap model, all writes go to objects allocated after copy) + structural snapshots and write tracing",
          "Every object reachable from the caller's plan and registry is unchanged after run/dry_run/render for every outcome (C13_frame, "
          "C13_frame_snapshot), every write targets a fresh object (C13_writes_fresh), copies are independent both ways, two interleaved runs of one "
